@@ -174,7 +174,7 @@ def gen_test(rng, idx, failure=None, kinds=None):
                           ":top", "DUP2", "DUP4", "EQ", "@done", "JUMPI",           # i == len ?
                           "DUP4", 32, "ADD", "DUP3", 32, "MUL", "ADD", "CALLDATALOAD", "ADD",  # acc += a[i]
                           "SWAP1", 1, "ADD", "SWAP1", "@top", "JUMP",
-                          ":done", K, "EQ", "SWAP2", L, "EQ", "SWAP2", "AND", "@bad", "JUMPI", "STOP"] + bad)
+                          ":done", K, "EQ", "SWAP2", L, "EQ", "SWAP2", "SWAP1", "POP", "AND", "@bad", "JUMPI", "STOP"] + bad)
         return GenTest(Fn(name, [("a", ("array", U, None))], body), [[[K - (L - 1)] + [1] * (L - 1)]], True, kind, failure, feats | {"dynamic", "loop"}, min_loop=L)
     raise ValueError(kind)
 
